@@ -287,6 +287,58 @@ func c05TxTime(c *Ctx) {
 	}
 	// releases(fn): every path of fn tests the flag and, when it is set, clears the write time,
 	// clears the flag and reinstalls the context
+	// effectsIn: which of the three release effects an instruction has (directly, or as a
+	// same-package helper that has them on every one of its paths)
+	var mustEffects func(fn *ssa.Function, depth int) map[string]bool
+	effectsOf := func(in ssa.Instruction, depth int) []string {
+		switch x := in.(type) {
+		case *ssa.Store:
+			if fa, ok := x.Addr.(*ssa.FieldAddr); ok {
+				switch an.FieldVar(fa.X.Type(), fa.Field) {
+				case flag:
+					if cb, isC := constBool(x.Val); isC && !cb {
+						return []string{"flag=false"}
+					}
+				case wt:
+					if an.IsZeroValue(x.Val) {
+						return []string{"writeTime=zero"}
+					}
+				}
+			}
+		case ssa.CallInstruction:
+			if isReset(x) {
+				return []string{"ResetContext()"}
+			}
+			if cal := x.Common().StaticCallee(); cal != nil && depth < 2 && an.PkgPathOf(cal) == core.ModPath+"/sqlite" && len(cal.Blocks) > 0 && cal != reset {
+				var out []string
+				for k := range mustEffects(cal, depth+1) {
+					out = append(out, k)
+				}
+				return out
+			}
+		}
+		return nil
+	}
+	mustEffects = func(fn *ssa.Function, depth int) map[string]bool {
+		where := map[string]map[*ssa.BasicBlock]bool{}
+		for _, blk := range fn.Blocks {
+			for _, in := range blk.Instrs {
+				for _, k := range effectsOf(in, depth) {
+					if where[k] == nil {
+						where[k] = map[*ssa.BasicBlock]bool{}
+					}
+					where[k][blk] = true
+				}
+			}
+		}
+		out := map[string]bool{}
+		for k, blks := range where {
+			if !an.ReturnsReachableAvoiding(fn.Blocks[0], blks) {
+				out[k] = true
+			}
+		}
+		return out
+	}
 	releases := func(fn *ssa.Function) (bool, string) {
 		var test *ssa.BasicBlock
 		ti := 0
@@ -317,24 +369,8 @@ func c05TxTime(c *Ctx) {
 				continue
 			}
 			for _, in := range blk.Instrs {
-				switch x := in.(type) {
-				case *ssa.Store:
-					if fa, ok := x.Addr.(*ssa.FieldAddr); ok {
-						switch an.FieldVar(fa.X.Type(), fa.Field) {
-						case flag:
-							if cb, isC := constBool(x.Val); isC && !cb {
-								need["flag=false"] = blk
-							}
-						case wt:
-							if an.IsZeroValue(x.Val) {
-								need["writeTime=zero"] = blk
-							}
-						}
-					}
-				case ssa.CallInstruction:
-					if isReset(x) {
-						need["ResetContext()"] = blk
-					}
+				for _, k := range effectsOf(in, 0) {
+					need[k] = blk
 				}
 			}
 		}
